@@ -4,6 +4,8 @@ package sched
 
 import (
 	"fmt"
+	"runtime"
+	"sync/atomic"
 
 	"go.lstv.dev/util/internal/vsim/core"
 )
@@ -33,10 +35,19 @@ const (
 	KCondSignal
 	KDone
 	KOther
+	KGo
+	KSend
+	KRecv
+	KSelect
+	KClose
+	KAtomic
+	KAccess
+	KTimer
 )
 
 var kindNames = [...]string{"start", "pre-call", "post-call", "lock", "blocked", "acquired", "unlock", "rlock", "runlock",
-	"rng-enter", "rng-mid", "now", "sleep", "once", "wg-add", "wg-wait", "cond-wait", "cond-signal", "done", "other"}
+	"rng-enter", "rng-mid", "now", "sleep", "once", "wg-add", "wg-wait", "cond-wait", "cond-signal", "done", "other",
+	"go", "send", "recv", "select", "close", "atomic", "access", "timer"}
 
 func (k Kind) String() string {
 	if int(k) < len(kindNames) {
@@ -97,7 +108,13 @@ type Task struct {
 	prio      int
 	lastRun   int64 // last step at which it ran
 	holding   int   // number of simulated locks held
+	daemon    bool  // started by a go statement of the code under test: the run does not wait for it
+	exiting   bool  // being torn down with runtime.Goexit at the end of the run
+	started   bool
 }
+
+// IsDaemon reports whether the task was started by the code under test.
+func (t *Task) IsDaemon() bool { return t.daemon }
 
 // Sim is one simulated run.
 type Sim struct {
@@ -115,7 +132,8 @@ type Sim struct {
 	Trace    []string
 	strategy Strategy
 	clock    ClockMode
-	NowNs    int64
+	NowNs    int64 // simulated wall clock (can jump backwards: clock skew)
+	MonoNs   int64 // simulated monotonic clock (timers and Sleep; never goes back)
 	Faults   core.Counters
 	Probes   core.Counters
 	finished chan struct{}
@@ -132,7 +150,24 @@ type Sim struct {
 	starveLen        int64
 	lastSwitchFrom   int
 	contendedThisRun bool
+
+	vcLen    int
+	created  int32 // goroutines started (atomic: read by the driver)
+	exit     chan struct{}
+	timers   []timer
+	hint     bool
+	draining bool // all caller tasks are done: daemons are being torn down
+	pending  []func()
 }
+
+type timer struct {
+	at   int64
+	seq  int
+	fire func()
+}
+
+// vcHeadroom is how many goroutines the code under test may start per run.
+const vcHeadroom = 32
 
 var (
 	// Cur is the run in progress, nil outside a run. Only ever touched by the goroutine
@@ -159,13 +194,131 @@ func New(t *core.Tape, c Config) *Sim {
 
 // Aborted reports whether the run has been abandoned (violation, budget); all primitives
 // are non-blocking no-ops from then on so that every goroutine drains.
-func (s *Sim) Aborted() bool { return s.aborted }
+func (s *Sim) Aborted() bool { return s.Check() }
 
 // CurTask returns the running task.
 func (s *Sim) CurTask() *Task { return s.cur }
 
-// NumTasks returns the number of tasks.
-func (s *Sim) NumTasks() int { return len(s.tasks) }
+// NumTasks returns the vector-clock width of this run (caller tasks plus headroom for
+// goroutines the code under test starts).
+func (s *Sim) NumTasks() int { return s.vcLen }
+
+// Check is what every simulated primitive asks first: true means "the run is over, be a
+// no-op". A daemon goroutine is torn down here (its deferred calls run; they see no-ops).
+func (s *Sim) Check() bool {
+	if !s.aborted {
+		return false
+	}
+	if t := s.cur; t != nil && t.daemon && !t.exiting && t.started {
+		t.exiting = true
+		runtime.Goexit()
+	}
+	return true
+}
+
+// pendingInit holds goroutines the code under test started outside a run (package
+// initialisation, re-executed by VsimReset): they become daemons of the next run.
+var pendingInit []func()
+
+// Go is the stand-in for a go statement of the code under test.
+func Go(f func()) {
+	s := Cur
+	if s == nil {
+		pendingInit = append(pendingInit, f)
+		return
+	}
+	if s.Check() {
+		return
+	}
+	s.spawn(f, s.cur)
+	s.Yield(KGo, len(s.tasks)-1)
+}
+
+// GoFromTimer starts f as a daemon task from a timer callback (no parent clock: a timer
+// firing is ordered after the call that armed it only through the clock).
+func GoFromTimer(f func()) {
+	if s := Cur; s != nil && !s.aborted {
+		s.spawn(f, nil)
+	}
+}
+
+func (s *Sim) spawn(f func(), parent *Task) {
+	if len(s.tasks) >= s.vcLen {
+		s.FailInfra(fmt.Sprintf("the code under test started more than %d goroutines in one run", vcHeadroom))
+		return
+	}
+	t := &Task{ID: len(s.tasks), resume: make(chan struct{}, 1), VC: make([]uint32, s.vcLen), prio: -1000 - len(s.tasks), daemon: true}
+	if parent != nil {
+		// the go statement happens before the goroutine's execution begins
+		copy(t.VC, parent.VC)
+		parent.VC[parent.ID]++
+	}
+	t.VC[t.ID] = 1
+	s.tasks = append(s.tasks, t)
+	s.Faults.Inc("goroutine_started_by_code")
+	s.launch(t, func(int) { f() })
+}
+
+func (s *Sim) launch(t *Task, body func(task int)) {
+	atomic.AddInt32(&s.created, 1)
+	go func() {
+		<-t.resume
+		t.started = true
+		defer func() {
+			t.done = true
+			s.taskDone(t)
+			s.exit <- struct{}{}
+		}()
+		if s.aborted {
+			return
+		}
+		defer func() {
+			if r := recover(); r != nil {
+				s.Fail("E3-panic", "panic", fmt.Sprintf("task %d panicked: %v", t.ID, r))
+			}
+		}()
+		body(t.ID)
+	}()
+}
+
+// AddTimer registers fire to run when the simulated monotonic clock reaches MonoNs+d.
+func (s *Sim) AddTimer(d int64, fire func()) {
+	if d < 0 {
+		d = 0
+	}
+	s.timers = append(s.timers, timer{at: s.MonoNs + d, seq: len(s.timers), fire: fire})
+}
+
+// fireTimers runs every timer whose deadline has passed, in (deadline, registration) order.
+func (s *Sim) fireTimers() {
+	for {
+		best := -1
+		for i, t := range s.timers {
+			if t.at <= s.MonoNs && (best < 0 || t.at < s.timers[best].at || (t.at == s.timers[best].at && t.seq < s.timers[best].seq)) {
+				best = i
+			}
+		}
+		if best < 0 {
+			return
+		}
+		f := s.timers[best].fire
+		s.timers = append(s.timers[:best], s.timers[best+1:]...)
+		s.Faults.Inc("timer_fired")
+		f()
+	}
+}
+
+// nextTimer returns the earliest pending deadline.
+func (s *Sim) nextTimer() (int64, bool) {
+	var at int64
+	ok := false
+	for _, t := range s.timers {
+		if !ok || t.at < at {
+			at, ok = t.at, true
+		}
+	}
+	return at, ok
+}
 
 // NewObjID hands out per-run object ids in order of first use.
 func (s *Sim) NewObjID() int {
@@ -210,12 +363,14 @@ func (s *Sim) FailInfra(msg string) {
 	s.aborted = true
 }
 
-// Run executes n tasks with the given bodies under the scheduler and returns when all
-// goroutines have finished. arrive[i] is the step at which task i becomes runnable.
+// Run executes n caller tasks with the given body under the scheduler and returns when all
+// goroutines (callers and whatever the code under test started) have finished. arrive[i] is
+// the step at which task i becomes runnable.
 func (s *Sim) Run(n int, arrive []int64, body func(task int)) {
-	s.tasks = make([]*Task, n)
+	s.vcLen = n + vcHeadroom
+	s.tasks = make([]*Task, n, s.vcLen)
 	for i := 0; i < n; i++ {
-		t := &Task{ID: i, resume: make(chan struct{}, 1), VC: make([]uint32, n), prio: i}
+		t := &Task{ID: i, resume: make(chan struct{}, 1), VC: make([]uint32, s.vcLen), prio: i}
 		t.VC[i] = 1
 		if arrive != nil {
 			t.arriveAt = arrive[i]
@@ -223,28 +378,16 @@ func (s *Sim) Run(n int, arrive []int64, body func(task int)) {
 		s.tasks[i] = t
 	}
 	s.setupStrategy()
+	s.exit = make(chan struct{}, 4)
 	Cur = s
-	remaining := n
-	exit := make(chan struct{}, n)
 	for i := 0; i < n; i++ {
-		t := s.tasks[i]
-		go func() {
-			<-t.resume
-			if !s.aborted {
-				func() {
-					defer func() {
-						if r := recover(); r != nil {
-							s.Fail("E3-panic", "panic", fmt.Sprintf("task %d panicked: %v", t.ID, r))
-						}
-					}()
-					body(t.ID)
-				}()
-			}
-			t.done = true
-			s.taskDone(t)
-			exit <- struct{}{}
-		}()
+		s.launch(s.tasks[i], body)
 	}
+	// goroutines started during package (re-)initialisation become daemons of this run
+	for _, f := range pendingInit {
+		s.spawn(f, nil)
+	}
+	pendingInit = nil
 	first := s.pick(nil)
 	if first == nil {
 		// nobody can arrive: treat as arriving now
@@ -253,24 +396,34 @@ func (s *Sim) Run(n int, arrive []int64, body func(task int)) {
 	s.cur = first
 	s.note(first, KStart, 0)
 	first.resume <- struct{}{}
-	for remaining > 0 {
-		<-exit
-		remaining--
+	for exited := int32(0); ; {
+		<-s.exit
+		exited++
+		if exited == atomic.LoadInt32(&s.created) {
+			break
+		}
 	}
+	s.cur = nil
 	Cur = nil
 }
 
 func (s *Sim) taskDone(t *Task) {
 	s.note(t, KDone, 0)
 	var next *Task
+	if !s.aborted && s.unfinishedCallers() == 0 {
+		// every caller has returned: the run is over, daemons are torn down
+		s.draining = true
+		s.aborted = true
+	}
 	if !s.aborted {
 		next = s.pick(t)
-		if next == nil && s.unfinished() > 0 {
-			s.Fail("E1-stuck", "stuck", "no runnable task while some task is unfinished: "+s.waitGraph())
+		if next == nil {
+			s.Fail("E1-stuck", "stuck", "no runnable task while some caller is unfinished: "+s.waitGraph())
 		}
 	}
 	if s.aborted {
 		// drain: resume any unfinished task, ignoring enabledness
+		next = nil
 		for _, o := range s.tasks {
 			if !o.done && o != t {
 				next = o
@@ -282,6 +435,16 @@ func (s *Sim) taskDone(t *Task) {
 		s.cur = next
 		next.resume <- struct{}{}
 	}
+}
+
+func (s *Sim) unfinishedCallers() int {
+	n := 0
+	for _, t := range s.tasks {
+		if !t.done && !t.daemon {
+			n++
+		}
+	}
+	return n
 }
 
 func (s *Sim) unfinished() int {
@@ -302,8 +465,10 @@ func (s *Sim) waitGraph() string {
 		}
 		if t.blockedOn != nil {
 			out += fmt.Sprintf("t%d waits for %s; ", t.ID, t.blockedOn.Name())
-		} else {
+		} else if t.arriveAt > s.Steps {
 			out += fmt.Sprintf("t%d not arrived; ", t.ID)
+		} else {
+			out += fmt.Sprintf("t%d runnable; ", t.ID)
 		}
 	}
 	return out
@@ -331,7 +496,7 @@ func (s *Sim) note(t *Task, k Kind, obj int) {
 
 // Yield is a preemption point of the running task.
 func (s *Sim) Yield(k Kind, obj int) {
-	if s.aborted {
+	if s.Check() {
 		return
 	}
 	me := s.cur
@@ -343,6 +508,9 @@ func (s *Sim) Yield(k Kind, obj int) {
 		return
 	}
 	s.advanceClock()
+	if len(s.timers) > 0 {
+		s.fireTimers()
+	}
 	next := s.pick(me)
 	if next == nil {
 		if me.blockedOn != nil {
@@ -364,13 +532,14 @@ func (s *Sim) Yield(k Kind, obj int) {
 	next.resume <- struct{}{}
 	<-me.resume
 	// back on the baton
+	s.Check()
 }
 
 // BlockOn parks the running task until w is free for it. Returns immediately when the run
 // is aborted.
 func (s *Sim) BlockOn(w Waitable, obj int) {
 	me := s.cur
-	for !s.aborted && !w.Free(me) {
+	for !s.Check() && !w.Free(me) {
 		me.blockedOn = w
 		s.noteContention(me)
 		s.Yield(KBlocked, obj)
@@ -428,9 +597,11 @@ func (s *Sim) advanceClock() {
 		case c < 11:
 		case c < 14:
 			s.NowNs += 1000
+			s.MonoNs += 1000
 			s.Faults.Inc("clock_tick_us")
 		default:
 			s.NowNs += 1000000
+			s.MonoNs += 1000000
 			s.Faults.Inc("clock_tick_ms")
 		}
 	case CJumpFwd, CJumpBack:
@@ -438,10 +609,12 @@ func (s *Sim) advanceClock() {
 		case c < 12:
 		case c < 15:
 			s.NowNs += 1000000
+			s.MonoNs += 1000000
 			s.Faults.Inc("clock_tick_ms")
 		default:
 			if s.clock == CJumpFwd {
 				s.NowNs += 3600 * 1000000000
+				s.MonoNs += 3600 * 1000000000
 				s.Faults.Inc("clock_jump_forward")
 			} else {
 				s.NowNs -= 3600 * 1000000000
@@ -472,8 +645,19 @@ func (s *Sim) setupStrategy() {
 	}
 }
 
+// YieldHint tells the scheduler that the running task is politely waiting (failed TryLock,
+// Sleep): the unfair strategies must not let it starve the task it is waiting for (PCT
+// lowers its priority, as in the original algorithm; run-to-block and sticky switch away).
+func (s *Sim) YieldHint() { s.hint = true }
+
 // pick chooses the next task to run; cur may be nil (start) or done.
 func (s *Sim) pick(cur *Task) *Task {
+	hint := s.hint
+	s.hint = false
+	if hint && cur != nil && s.strategy == SPCT {
+		cur.prio = s.lowPrio
+		s.lowPrio--
+	}
 	var en []*Task
 	curEnabled := false
 	if cur != nil && s.enabled(cur) {
@@ -501,10 +685,23 @@ func (s *Sim) pick(cur *Task) *Task {
 			s.Faults.Inc("staggered_arrival_jump")
 			return soon
 		}
+		// nothing runnable, nobody to arrive: jump the simulated clock to the next timer
+		if at, ok := s.nextTimer(); ok {
+			if at > s.MonoNs {
+				s.NowNs += at - s.MonoNs
+				s.MonoNs = at
+			}
+			s.Faults.Inc("clock_jump_to_timer")
+			s.fireTimers()
+			return s.pick(cur)
+		}
 		return nil
 	}
 	if len(en) == 1 {
 		return en[0]
+	}
+	if hint && curEnabled && (s.strategy == SRunToBlock || s.strategy == SSticky50 || s.strategy == SSticky90) {
+		return en[1+s.Tape.Choose(len(en)-1)]
 	}
 	switch s.strategy {
 	case SUniform:
